@@ -10,6 +10,8 @@ pub mod node;
 pub mod pl;
 #[cfg(feature = "security")]
 pub mod sec;
+#[cfg(feature = "security")]
+pub mod secnode;
 pub mod types;
 
 pub use crate::{
